@@ -382,4 +382,58 @@ def table_events(rec):
     rec.run('table.events[no final time]', funcs, 'P∞', lambda: backed(True))
 
 
-TASKS = [('protocol', protocol_event), ('surgery', surgery), ('table', table_events)]
+def sampled_tables(rec):
+    """bounded run-time contract (pandas assembly): the dose rows that predictive models attach to sampled measurements are exactly the events the
+    regimen schedules up to the last requested time -- with and without covariate rows in the table"""
+    def one(case):
+        import chi as real
+        import xarray as xr
+        from contracts import c15
+        which, reg, times = case
+        Toy = c15.toy_model()
+        pm = real.PredictiveModel(Toy(), [real.GaussianErrorModel(), real.GaussianErrorModel()])
+        kw = {'single-late': dict(dose=2.0, start=7.0, duration=0.5), 'single': dict(dose=2.0, start=1.0, duration=0.5),
+              'finite': dict(dose=2.0, start=1.0, duration=0.5, period=1.5, num=3), 'indefinite': dict(dose=2.0, start=1.0, duration=0.5, period=1.5)}[reg]
+        pm.set_dosing_regimen(**kw)
+        final = max(times)
+        if 'period' in kw:
+            want = [1.0 + 1.5 * k for k in range(kw.get('num', 1000)) if 1.0 + 1.5 * k <= final]
+        else:
+            want = [kw['start']] if kw['start'] <= final else []
+        n = 3
+        if which == 'individual':
+            df = pm.sample([1.0, 1.5, 1e-3, 1e-3], list(times), n_samples=n, seed=3, include_regimen=True)
+            ids = list(range(1, n + 1))
+        elif which == 'population':
+            pop = real.ComposedPopulationModel([real.GaussianModel(), real.PooledModel(n_dim=3)])
+            df = real.PopulationPredictiveModel(pm, pop).sample([1.0, 0.1, 1.5, 1e-3, 1e-3], list(times), n_samples=n, seed=4, include_regimen=True)
+            ids = list(range(1, n + 1))
+        elif which == 'population+covariates':
+            pop = real.ComposedPopulationModel([real.CovariatePopulationModel(real.GaussianModel(), real.LinearCovariateModel(n_cov=1)), real.PooledModel(n_dim=3)])
+            df = real.PopulationPredictiveModel(pm, pop).sample([1.0, 1e-3, 1.0, 0.0, 1.5, 1e-3, 1e-3], list(times), n_samples=n, seed=4, include_regimen=True,
+                                                                covariates=np.arange(1.0, n + 1)[:, None])
+            ids = list(range(1, n + 1))
+        else:
+            names = pm.get_parameter_names()
+            ds = xr.Dataset({nm: (('chain', 'draw'), 1.0 + 0.1 * np.arange(4).reshape(2, 2) + (0 if k_ < 2 else -0.99)) for k_, nm in enumerate(names)}, coords={'chain': [0, 1], 'draw': [0, 1]})
+            df = real.PosteriorPredictiveModel(pm, ds).sample(list(times), n_samples=n, seed=5, include_regimen=True)
+            ids = None
+        if 'Dose' not in df.columns:
+            return None if not want else '%s, %s regimen: the table has no dose columns although the events at %s are applied up to the last requested time %s' % (which, reg, want, final)
+        dose = df[df['Dose'].notna()]
+        groups = [dose] if ids is None else [dose[dose['ID'] == i_] for i_ in ids]
+        for g in groups:
+            got = sorted(zip(g['Time'], g['Duration'], g['Dose']))
+            if len(got) != len(want) or (want and not np.allclose(np.array(got, dtype=float).reshape(-1, 3), np.array([(t, 0.5, 2.0) for t in want]).reshape(-1, 3))):
+                return '%s, %s regimen, last requested time %s: the table lists the dose events %s, the simulation applies (time, duration, dose) = %s' % (which, reg, final, got, [(t, 0.5, 2.0) for t in want])
+        if ids is not None and len(dose) != len(ids) * len(want):
+            return '%s: %d dose rows for %d sampled individuals x %d events' % (which, len(dose), len(ids), len(want))
+        return None
+    cases = [(w_, r_, t_) for w_ in ('individual', 'population', 'population+covariates', 'posterior') for r_ in ('single-late', 'single', 'finite', 'indefinite')
+             for t_ in ((3.0, 1.0, 2.0), (4.0, 0.5), (0.5,))]
+    rec.native_check('table.sampled', ['chi._predictive_models.PredictiveModel.sample', 'chi._predictive_models.PopulationPredictiveModel.sample', 'chi._predictive_models.PosteriorPredictiveModel.sample'],
+                     cases, one, '4 predictive models (population model with and without covariate rows) x {single dose after the last time, single, finite, indefinite regimen} x 3 time vectors '
+                     '(last time on / off a dose time, before the first dose); dosable pure-Python mechanistic model; distinct by (model, regimen, times)', exhaustive=True)
+
+
+TASKS = [('protocol', protocol_event), ('surgery', surgery), ('table', table_events), ('sampled-tables', sampled_tables)]
